@@ -333,6 +333,35 @@ fn run_speed(sc: &Value, tr: &mut Tracer) {
 	let exact = sc["kind"] == "speed";
 	tr.reset(json!({"kind": sc["kind"]}));
 	for c in sc["cases"].as_array().unwrap() {
+		if sc["kind"] == "speedi" {
+			// Tweenable for ClockSpeed: from 2^k1 ticks per second given in unit u1 to 2^k2 given in unit u2
+			let g = |n: &str| c[n].as_i64().unwrap();
+			let (u1, k1, u2, k2, q) = (g("u1"), g("k1"), g("u2"), g("k2"), g("q"));
+			let mk = |u: i64, k: i64| {
+				let tps = 2f64.powi(k as i32);
+				speed_of(u, [1.0 / tps, tps, 60.0 * tps][u as usize])
+			};
+			let (a, b) = (mk(u1, k1), mk(u2, k2));
+			let mut e = json!({"a": "speed_i", "u1": u1, "k1": k1, "u2": u2, "k2": k2, "q": q, "p": false, "ex": false,
+				"ru": -1, "r": 0, "tp": 0});
+			match guarded(|| <ClockSpeed as kira::Tweenable>::interpolate(a, b, q as f64 / 4.0)) {
+				Ok(r) => {
+					let (ru, v) = match r {
+						ClockSpeed::SecondsPerTick(v) => (0, v),
+						ClockSpeed::TicksPerSecond(v) => (1, v),
+						ClockSpeed::TicksPerMinute(v) => (2, v),
+					};
+					let v = v * 1024.0;
+					e["ru"] = json!(ru);
+					e["r"] = json!(clampi(v.floor(), TWO30));
+					e["ex"] = json!(v.is_finite() && v.fract() == 0.0 && v.abs() < TWO30);
+					e["tp"] = json!(clampi((r.as_ticks_per_second() * 1024.0).floor(), TWO30));
+				}
+				Err(_) => e["p"] = json!(true),
+			}
+			tr.ev(e);
+			continue;
+		}
 		let u = c["u"].as_i64().unwrap();
 		if exact {
 			let k = c["k"].as_i64().unwrap();
@@ -471,7 +500,7 @@ fn main() {
 			"time" => run_time(&sc, id, &mut tr),
 			"timer" => run_timer(&sc, id, &mut tr),
 			"map" => run_map(&sc, &mut tr),
-			"speed" | "speedr" => run_speed(&sc, &mut tr),
+			"speed" | "speedr" | "speedi" => run_speed(&sc, &mut tr),
 			"semi" => run_semi(&sc, &mut tr),
 			"db" => run_db(&sc, &mut tr),
 			"pan" => run_pan(&sc, &mut tr),
